@@ -2003,3 +2003,209 @@ Proof.
   rewrite (proj2 (all_clean_iff p_optnn out) O9 : has_optional_not_nullable out = false).
   reflexivity.
 Qed.
+
+(* =====================================================================================
+   THE PYTHON CHAIN
+   ===================================================================================== *)
+(* a `null` branch in a union that does not have exactly two branches: DisjunctionWithNullToOptional
+   leaves it, and FlattenDisjunctions may later shrink that union to `T | null` *)
+Definition p_null3 (_ : bool) (t : ty) : bool :=
+  match t with TDisj _ d => existsb is_null (d_branches d) && negb (Nat.eqb (List.length (d_branches d)) 2) | _ => false end.
+Definition p_hasnull (_ : bool) (t : ty) : bool :=
+  match t with TDisj _ d => existsb is_null (d_branches d) | _ => false end.
+Definition null_in_wide_union (ss : schemas) : bool := existsb (fun o => any_sub p_null3 false (o_type o)) (objects_of ss).
+
+Definition null_back (b b' : ty) : Prop := is_null b' = true -> is_null b = true.
+Lemma srel_null_back : forall t t', srel t t' -> null_back t t'.
+Proof.
+  intros t t' H. induction H as [t|t l Hl|t t' a H IH|a a' v v' H _|a a' i i' v v' Hi _ Hv _|a a' dh dh' fs fs' H _|a a' d d' H _|a a' bs bs' H _| | | | ]
+    using srel_ind2 with (P0 := fun _ _ _ => True) (P1 := fun _ _ _ => True); try exact I; unfold null_back; try (intros X; exact X);
+    try (simpl; discriminate).
+  - destruct l; simpl in Hl; try contradiction. simpl. discriminate.
+  - intros X. apply IH. destruct t'; simpl in *; try discriminate. exact X.
+Qed.
+
+Lemma Forall2_length {A B} (Rel : A -> B -> Prop) l l' : Forall2 Rel l l' -> List.length l = List.length l'.
+Proof. induction 1; simpl; congruence. Qed.
+
+Lemma srel_null3 t t' inter : srel t t' -> any_sub p_null3 inter t = false -> any_sub p_null3 inter t' = false.
+Proof.
+  apply (srel_pres p_null3 null_back); srel_side.
+  - exact srel_null_back.
+  - intros i a a' d d' HF2 Hp. simpl in *. apply andb_false_iff in Hp. apply andb_false_iff.
+    destruct Hp as [Hp|Hp].
+    + left. apply existsb_false_iff. intros b' Hb'. destruct (Forall2_in_r _ _ _ HF2 b' Hb') as [b [Hb Hnb]].
+      destruct (is_null b') eqn:E; [|reflexivity]. pose proof (Hnb E) as Hx.
+      rewrite (proj1 (existsb_false_iff _ _) Hp b Hb) in Hx. discriminate.
+    + right. rewrite <- (Forall2_length _ _ _ HF2). exact Hp.
+Qed.
+Definition srel_null3' := fun t t' inter (H : srel t t') => srel_null3 t t' inter H.
+
+Lemma hasnull_irrel t i j : any_sub p_hasnull i t = any_sub p_hasnull j t.
+Proof. apply any_sub_inter_irrel. reflexivity. Qed.
+Lemma union_free_hasnull t inter : any_sub p_union false t = false -> any_sub p_hasnull inter t = false.
+Proof.
+  intros H. rewrite (p_union_irrel t false inter) in H. revert H. apply any_sub_weaken.
+  intros i x Hx. destruct x; try reflexivity. discriminate.
+Qed.
+Lemma hasnull_tnull ss : all_clean p_hasnull ss -> has_t_or_null ss = false.
+Proof.
+  intros Hc. rewrite has_t_or_null_eq. apply existsb_false_iff. intros o Ho. generalize (Hc o Ho). apply any_sub_weaken.
+  intros i x Hx. destruct x; try reflexivity. simpl in *. rewrite Hx. apply andb_false_r.
+Qed.
+
+(* DisjunctionWithNullToOptional: afterwards no union has a `null` branch *)
+Theorem dwnto_establishes_no_null_branch ss out :
+  all_clean p_nuf ss -> all_clean p_null3 ss -> disjunction_with_null_to_optional ss = Ok out -> all_clean p_hasnull out.
+Proof.
+  intros Hn H3 H o' Ho'. unfold disjunction_with_null_to_optional in H.
+  destruct (visit_schemas_disj0_objects _ _ _ _ H Ho') as [s [o [t' [Hs [Ho [Hv Heq]]]]]]. subst o'. simpl.
+  assert (any_sub (por p_nuf p_null3) false (o_type o) = false) as Hc.
+  { apply any_sub_or_false. split; [apply Hn|apply H3]; eapply objects_of_single; eassumption. }
+  apply visit_disj0_vrel in Hv.
+  refine (proj1 (vrel_pres unit (lift0 dwnto_disj) (por p_nuf p_null3) p_hasnull (fun _ _ => True) (fun _ => True)
+                           _ _ _ _ _ _ _ tt (o_type o) t' tt false Hv Hc I)); try (intros; reflexivity); try (intros; exact I).
+  - intros i t Hl _. destruct t; simpl in Hl; try contradiction; reflexivity.
+  - intros st a d t1 st1 i Hd Hcd _. split; [|split; exact I]. apply lift0_inv in Hd.
+    apply any_sub_or_false in Hcd. destruct Hcd as [Hnuf Hn3].
+    pose proof (nuf_branches i a d Hnuf) as Hb.
+    destruct (dwnto_disj_shape _ _ _ Hd) as [E|[b [Hbin [_ E]]]]; subst t1.
+    + (* untouched: either no null branch, or exactly two branches - but then it would have been rewritten *)
+      simpl. apply orb_false_iff. split; [|apply existsb_false_iff; intros b Hbin; apply union_free_hasnull; apply Hb; assumption].
+      simpl in Hn3. apply orb_false_iff in Hn3. destruct Hn3 as [Hn3 _].
+      destruct (existsb is_null (d_branches d)) eqn:En; [|reflexivity]. simpl in Hn3. apply negb_false_iff in Hn3.
+      (* two branches, one of them null: dwnto_disj does not return the union itself *)
+      exfalso. unfold dwnto_disj in Hd. destruct (d_branches d) as [|x [|y [|z r]]]; simpl in Hn3; try discriminate.
+      unfold has_null_type in Hd. rewrite En in Hd.
+      destruct (filter (fun b => negb (is_null b)) [x; y]) as [|b rest] eqn:Ef; [discriminate|]. inversion Hd as [E].
+      assert (In b [x; y]) as Hbxy.
+      { assert (In b (filter (fun b => negb (is_null b)) [x; y])) as Hf by (rewrite Ef; left; reflexivity).
+        apply filter_In in Hf. destruct Hf; assumption. }
+      pose proof (Hb b Hbxy) as Hub. destruct b; simpl in Hub; discriminate.
+    + rewrite any_sub_set_nullable_gen; [|destruct b; reflexivity]. apply union_free_hasnull. apply Hb. assumption.
+Qed.
+
+(* p_hasnull through the later stateless passes *)
+Ltac hn_side := try (intros; simpl in *; assumption || reflexivity).
+Theorem hasnull_docte ss out : all_clean p_hasnull ss -> disjunction_of_constants_to_enum ss = Ok out -> all_clean p_hasnull out.
+Proof.
+  intros Hc H. unfold disjunction_of_constants_to_enum in H.
+  refine (v0_pres p_hasnull (fun _ _ => True) (fun _ _ _ => I) _ _ _ _ _ ss out _ Hc H); hn_side.
+  intros s a d t1 i _ _ Hd Hcd. split; [|exact I]. destruct (docte_disj_shape _ _ _ _ Hd) as [->|[vs ->]]; [assumption|reflexivity].
+Qed.
+Theorem hasnull_dim ss out : all_clean p_hasnull ss -> disjunction_infer_mapping ss = Ok out -> all_clean p_hasnull out.
+Proof.
+  intros Hc H. unfold disjunction_infer_mapping in H.
+  refine (v0_pres p_hasnull (fun _ _ => True) (fun _ _ _ => I) _ _ _ _ _ ss out _ Hc H); hn_side.
+  intros s a d t1 i _ _ Hd Hcd. split; [|exact I]. destruct (dim_disj_shape _ _ _ _ Hd) as [disc [m ->]]. simpl in *. assumption.
+Qed.
+Theorem hasnull_fd ss out : all_clean p_hasnull ss -> flatten_disjunctions ss = Ok out -> all_clean p_hasnull out.
+Proof.
+  intros Hc H. unfold flatten_disjunctions in H.
+  refine (v0_pres p_hasnull (fun _ _ => True) (fun _ _ _ => I) _ _ _ _ _ ss out _ Hc H); hn_side.
+  intros s a d t1 i _ Hcs Hd Hcd. split; [|exact I].
+  assert (forall a0 d0 j, any_sub p_hasnull j (TDisj a0 d0) = false ->
+                          forall b, In b (d_branches d0) -> is_null b = false /\ any_sub p_hasnull i b = false) as Hbr.
+  { intros a0 d0 j Hx b Hb. simpl in Hx. apply orb_false_iff in Hx. destruct Hx as [X1 X2]. split.
+    - exact (proj1 (existsb_false_iff _ _) X1 b Hb).
+    - rewrite (hasnull_irrel b i j). exact (proj1 (existsb_false_iff _ _) X2 b Hb). }
+  destruct (fd_disj_branches (fun b => is_null b = false /\ any_sub p_hasnull i b = false) s a d t1) as [bs' [-> Hbs']].
+  - eapply Hbr. eassumption.
+  - intros k o a' d' Hin E rb Hrb. pose proof (Hcs o (in_single_objects _ _ _ Hin)) as Hx. rewrite E in Hx. eapply Hbr; eassumption.
+  - assumption.
+  - simpl. apply orb_false_iff. split; apply existsb_false_iff; intros b Hb; apply (Hbs' b Hb).
+Qed.
+
+(* RenameNumericEnumValues only renames members of top-level enums *)
+Lemma rnev_objects ss o' : In o' (objects_of (rename_numeric_enum_values ss)) ->
+  exists o, In o (objects_of ss) /\ (o_type o' = o_type o \/ exists a vs vs', o_type o = TEnum a vs /\ o_type o' = TEnum a vs').
+Proof.
+  intros Ho'. unfold rename_numeric_enum_values in Ho'. apply in_objects_of_map in Ho'. destruct Ho' as [s [k [Hs Hko]]]. simpl in Hko.
+  assert (forall (l : list (string * object)) acc,
+            In (k, o') (fold_left (fun acc (ko : string * object) => objs_set acc (fst ko) (rnev_object (snd ko))) l acc) ->
+            In (k, o') acc \/ exists ko, In ko l /\ o' = rnev_object (snd ko)) as G.
+  { induction l as [|x r IH]; intros acc Hx; [left; assumption|]. simpl in Hx. apply IH in Hx.
+    destruct Hx as [Hx|[ko [Hk E]]]; [|right; exists ko; split; [right; assumption|assumption]].
+    apply objs_set_in_inv in Hx. destruct Hx as [Hx|Hx]; [left; assumption|right; exists x; split; [left; reflexivity|assumption]]. }
+  destruct (G _ _ Hko) as [[]|[[k0 o] [Hin E]]]. simpl in E. exists o.
+  split; [apply in_objects_of; exists s, k0; split; assumption|]. subst o'. unfold rnev_object.
+  destruct (o_type o) eqn:Et; try (left; assumption). right. eexists. eexists. eexists. split; reflexivity.
+Qed.
+Theorem rnev_pres (p : bool -> ty -> bool) ss :
+  (forall inter a vs vs', p inter (TEnum a vs') = p inter (TEnum a vs)) ->
+  all_clean p ss -> all_clean p (rename_numeric_enum_values ss).
+Proof.
+  intros Hp Hc o' Ho'. destruct (rnev_objects _ _ Ho') as [o [Ho [E|[a [vs [vs' [E1 E2]]]]]]].
+  - rewrite E. apply Hc. assumption.
+  - rewrite E2. pose proof (Hc o Ho) as Hx. rewrite E1 in Hx. simpl in *. rewrite (Hp false a vs vs'). assumption.
+Qed.
+Theorem rnev_pres_below (p : bool -> ty -> bool) ss : all_clean_below p ss -> all_clean_below p (rename_numeric_enum_values ss).
+Proof.
+  intros Hc o' Ho'. destruct (rnev_objects _ _ Ho') as [o [Ho [E|[a [vs [vs' [E1 E2]]]]]]].
+  - rewrite E. apply Hc. assumption.
+  - rewrite E2. reflexivity.
+Qed.
+
+Definition names_fit_b (ss : schemas) : bool :=
+  forallb (fun o => forallb (fun v => implb (is_numeric_name (ev_name v)) (atoi_ok (ev_name v))) (enum_members o)) (objects_of ss).
+Lemma names_fit_b_spec ss : names_fit_b ss = true -> names_fit ss.
+Proof.
+  unfold names_fit_b, names_fit. intros H o v Ho Hv Hnum. rewrite forallb_forall in H. specialize (H o Ho).
+  rewrite forallb_forall in H. specialize (H v Hv). rewrite Hnum in H. exact H.
+Qed.
+
+Definition tame_python (ss : schemas) : bool :=
+  negb (nested_union ss) && negb (union_in_inter ss) && negb (null_in_wide_union ss) &&
+  match process (firstn 6 chain_python) ss with Ok mid => names_fit_b mid | _ => true end.
+
+Theorem python_chain_nf ss out :
+  tame_python ss = true -> process chain_python ss = Ok out -> nf_violations "python" out = [].
+Proof.
+  intros Ht H. unfold tame_python in Ht.
+  apply andb_true_iff in Ht. destruct Ht as [Ht Hfit]. apply andb_true_iff in Ht. destruct Ht as [Ht H3].
+  apply andb_true_iff in Ht. destruct Ht as [Hn Hu]. apply negb_true_iff in Hn, Hu, H3.
+  pose proof (proj1 (all_clean_iff _ _) Hn) as N0. pose proof (proj1 (all_clean_iff _ _) Hu) as U0.
+  pose proof (proj1 (all_clean_iff _ _) H3) as T0. unfold chain_python in H.
+  step_total H. pose proof (nuf_astn _ N0) as N1. pose proof (nui_astn _ U0) as U1. pose proof (astn_pres p_null3 _ srel_null3' T0) as T1.
+  pose proof (proj1 (all_clean_below_iff _ _) (astn_establishes_no_anonymous_struct ss)) as S1.
+  step_total H. pose proof (nuf_nrfn _ N1) as N2. pose proof (nui_nrfn _ U1) as U2. pose proof (nrfn_pres p_null3 _ srel_null3' T1) as T2.
+  pose proof (nrfn_pres_below p_struct _ srel_struct_below' S1) as S2.
+  pose proof (proj1 (all_clean_iff p_optnn _) (not_required_establishes_optional_nullable_proof (anonymous_structs_to_named ss))) as O2.
+  step_res H s3 P3. pose proof (nui_dwnto _ _ U2 P3) as U3. pose proof (i1_dwnto _ _ U2 S2 P3) as S3. pose proof (i2_dwnto _ _ U2 O2 P3) as O3.
+  pose proof (dwnto_establishes_no_null_branch _ _ N2 T2 P3) as L3.
+  step_res H s4 P4. pose proof (nui_docte _ _ U3 P4) as U4. pose proof (i1_docte _ _ U3 S3 P4) as S4. pose proof (i2_docte _ _ U3 O3 P4) as O4.
+  pose proof (hasnull_docte _ _ L3 P4) as L4.
+  step_res H s5 P5. pose proof (nui_fd _ _ U4 P5) as U5. pose proof (i1_fd _ _ U4 S4 P5) as S5. pose proof (i2_fd _ _ U4 O4 P5) as O5.
+  pose proof (hasnull_fd _ _ L4 P5) as L5.
+  step_res H s6 P6. pose proof (i1_dim _ _ U5 S5 P6) as S6. pose proof (i2_dim _ _ U5 O5 P6) as O6. pose proof (hasnull_dim _ _ L5 P6) as L6.
+  assert (process (firstn 6 chain_python) ss = Ok s6) as Hmid.
+  { unfold chain_python. cbn [firstn process run_pass bind]. rewrite P3. cbn [bind]. rewrite P4. cbn [bind]. rewrite P5. cbn [bind].
+    rewrite P6. reflexivity. }
+  rewrite Hmid in Hfit.
+  step_total H. simpl in H. inversion H; subst.
+  pose proof (rnev_pres_below p_struct _ S6) as S7. pose proof (rnev_pres p_optnn _ (fun _ _ _ _ => eq_refl) O6) as O7.
+  pose proof (rnev_pres p_hasnull _ (fun _ _ _ _ => eq_refl) L6) as L7.
+  unfold nf_violations. simpl.
+  rewrite (proj2 (all_clean_below_iff p_struct _) S7 : has_anonymous_struct _ = false).
+  rewrite (proj2 (all_clean_iff p_optnn _) O7 : has_optional_not_nullable _ = false).
+  rewrite (hasnull_tnull _ L7).
+  rewrite (rename_numeric_establishes_proof s6 (names_fit_b_spec _ Hfit)). reflexivity.
+Qed.
+
+(* non-vacuity and necessity for the Python chain *)
+(* string | string | null: FlattenDisjunctions merges the two `string` branches *)
+Definition w_null_in_wide_union : schemas := xObj (TStruct A0 [] [mkField "f" [] (xU [xSc KString; xSc KString; xSc KNull]) true]).
+(* a numeric member name beyond the int range: strconv.Atoi fails, the name is kept *)
+Definition w_huge_numeric_name : schemas :=
+  [mkSchema "p" wm0 "" ty_zero [("E", mkObject "E" [] (TEnum A0 [mkEnumVal (xSc KString) "99999999999999999999" (DStr "x")]) "p" "E")]].
+Definition python_breaks (w : schemas) (v : string) : Prop := exists out, process chain_python w = Ok out /\ In v (nf_violations "python" out).
+Example python_chain_nf_nonvacuous :
+  tame_python w_tame = true /\
+  nf_violations "python" w_tame = ["anonymous-struct"; "optional-field-not-nullable"; "T-or-null-union"] /\
+  (exists out, process chain_python w_tame = Ok out /\ nf_violations "python" out = []) /\
+  (null_in_wide_union w_null_in_wide_union = true /\ python_breaks w_null_in_wide_union "T-or-null-union") /\
+  (tame_python w_huge_numeric_name = false /\ python_breaks w_huge_numeric_name "numeric-enum-member").
+Proof.
+  split; [vm_compute; reflexivity|]. split; [vm_compute; reflexivity|]. split; [eexists; split; vm_compute; reflexivity|].
+  split; (split; [vm_compute; reflexivity|]); eexists; (split; [vm_compute; reflexivity|vm_compute; tauto]).
+Qed.
